@@ -14,9 +14,11 @@ from xv import models
 
 PROPERTY = 'C06'
 LEVEL = 'exploration'
-RULE = ("every (want, got) pair over the alphabet {a,b,' ','\\n','.'} with len(want)<=W and len(got)<=G "
-        "is enumerated (exhaustive=true for that sub-space; pairs are distinct by construction and a pair is "
-        "non-trivial when the want contains '...'), then random longer pairs are derived from a random got by "
+RULE = ("two finite spaces are enumerated completely (exhaustive=true refers to them): (A) every (want, got) pair over "
+        "the characters {a,b,' ','\\n','.'} with len(want)<=W, len(got)<=G; (B) every want of up to TW tokens over "
+        "{a,b,' ','\\n','...'} ('...' counts as one token, so wants with 2 and 3 wildcards and literals between them "
+        "are inside the bound) against every got of up to TG characters; pairs are distinct by construction and a pair "
+        "is non-trivial when the want contains '...'.  Then random longer pairs are derived from a random got by "
         "replacing substrings with '...' (must match), and by then editing one literal character "
         "(reference decides); each pair is judged at checker._ellipsis_match and at "
         "checker.check_output under +ELLIPSIS and -ELLIPSIS")
@@ -33,15 +35,24 @@ NSHARDS = {'quick': 16, 'thorough': 16}
 
 def required_cells(tier):
     return ['pair:wild:match', 'pair:wild:nomatch', 'pair:plain:match', 'pair:plain:nomatch',
-            'public:+ELLIPSIS', 'public:-ELLIPSIS', 'derived:positive', 'derived:edited', 'derived:dotted']
+            'public:+ELLIPSIS', 'public:-ELLIPSIS', 'derived:positive', 'derived:edited', 'derived:dotted',
+            'wildcards:1', 'wildcards:2', 'wildcards:3']
 
 
-def strings_upto(n):
+TOKENS = ['a', 'b', ' ', '\n', '...']
+
+
+def strings_upto(n, alpha=None):
+    alpha = alpha or ALPHA
     out = []
     for k in range(n + 1):
-        for t in itertools.product(ALPHA, repeat=k):
+        for t in itertools.product(alpha, repeat=k):
             out.append(''.join(t))
     return out
+
+
+def _ntok(w):
+    return len(w) - 2 * w.count('...')
 
 
 def _states():
@@ -86,19 +97,31 @@ def run_shard(ctx):
     if fn is None:
         ctx.unavailable.add('checker._ellipsis_match')
     on, off = _states()
-    W, G = ctx.pick((6, 5), (7, 6))
-    PW, PG = ctx.pick((5, 4), (6, 5))      # public-boundary bound
-    wants = strings_upto(W)
-    gots = strings_upto(G)
-    gots_pub = [g for g in gots if len(g) <= PG]
-    ctx.notes['enumerated_bound'] = {'alphabet': ALPHA, 'want_len': W, 'got_len': G,
-                                     'public_want_len': PW, 'public_got_len': PG,
-                                     'wants': len(wants), 'gots': len(gots)}
+    # two enumerated spaces: (A) wants over the raw characters, (B) wants over tokens where '...' is ONE
+    # token, so that wants with two and three wildcards and literals between them are inside the bound
+    W, G = ctx.pick((5, 5), (7, 6))
+    TW, TG = ctx.pick((5, 5), (6, 6))
+    PW, PG = ctx.pick((4, 4), (5, 5))      # public-boundary bound (both spaces)
+    raw_wants = strings_upto(W)
+    tok_wants = [w for w in strings_upto(TW, TOKENS) if '...' in w]
+    seen = set(raw_wants)
+    tok_wants = [w for w in sorted(set(tok_wants)) if w not in seen]
+    gots_by_len = {}
+    allgots = strings_upto(max(G, TG))
+    ctx.notes['enumerated_bound'] = {
+        'alphabet': ALPHA, 'A_want_chars': W, 'A_got_chars': G, 'B_want_tokens': TW, 'B_got_chars': TG,
+        'B_tokens': TOKENS, 'public_want_len': PW, 'public_got_len': PG,
+        'A_wants': len(raw_wants), 'B_wants_new': len(tok_wants)}
     ctx.exhaustive = True
     n_priv = n_pub = 0
     cm = collections_counter()
-    for wi in ctx.my_indices(len(wants)):
-        want = wants[wi]
+    work = [(w, G, len(w) <= PW) for w in raw_wants] + [(w, TG, _ntok(w) <= PW) for w in tok_wants]
+    gots_pub = [g for g in allgots if len(g) <= PG]
+    for wi in ctx.my_indices(len(work)):
+        want, glen, public = work[wi]
+        gots = gots_by_len.get(glen)
+        if gots is None:
+            gots = gots_by_len[glen] = [g for g in allgots if len(g) <= glen]
         wild = '...' in want
         if fn is not None:
             if wild:
@@ -123,7 +146,7 @@ def run_shard(ctx):
             n_priv += len(gots)
             if wild:
                 ctx.nontrivial_count(len(gots))
-        if len(want) <= PW:
+        if public:
             for got in gots_pub:
                 check_pair_public(ctx, checker.check_output, on, off, got, want)
             n_pub += 2 * len(gots_pub)
@@ -132,6 +155,9 @@ def run_shard(ctx):
             if fn is None:
                 for got in gots_pub:
                     cm[(wild, models.ell_match(got, want))] += 1
+        if wild:
+            nw = want.count('...')
+            ctx.cell('wildcards:%d' % min(nw, 3))
     for (wild, exp), n in cm.items():
         ctx.cell('pair:%s:%s' % ('wild' if wild else 'plain', 'match' if exp else 'nomatch'), n)
     ctx.evaluation(n_priv + n_pub)
